@@ -117,3 +117,10 @@ End Top.
 (** the sorter facts regenerated from the source never return an order from the retry shortcut *)
 Lemma gen_sc : f_shortcut gen_sort_facts <> ScAppendBreak.
 Proof. vm_compute. discriminate. Qed.
+
+Lemma gen_cap : f_cap gen_sort_facts = CapSquare.
+Proof. vm_compute. reflexivity. Qed.
+Lemma gen_cmp : f_cmp gen_sort_facts = CmpGt.
+Proof. vm_compute. reflexivity. Qed.
+Lemma gen_chk : f_checks_first gen_sort_facts = true.
+Proof. vm_compute. reflexivity. Qed.
